@@ -354,10 +354,15 @@ async def real_sequence(loop: vloop.VirtualLoop, ctx, trial: int) -> None:
                 # another reader of the same log (an RFG100) is answered just now - for another entry - and our
                 # own reply is lost this once: our request is simply asked again
                 other_reader.discard(k)
-                j = (k + 2) % len(sim.entries)
-                air.inject(f"RP --- {CTL} 30:111111 --:------ 0418 022 {entry_payload(sim.entries[j], j)}", delay=0.03)
-                ctx.count("sequence.foreign_replies")
-                return
+                if rng.random() < 0.5:
+                    j = (k + 2) % len(sim.entries)
+                    air.inject(f"RP --- {CTL} 30:111111 --:------ 0418 022 {entry_payload(sim.entries[j], j)}", delay=0.03)
+                    ctx.count("sequence.foreign_replies")
+                    return
+                # ... or the other reader asked beyond the end of the log: the controller's 'no such entry' reply to
+                # it is on the air just before our own (proper) reply
+                air.inject(f"RP --- {CTL} 30:111111 --:------ 0418 022 {NULL}", delay=0.02)
+                ctx.count("sequence.foreign_null_replies")
             body = entry_payload(sim.entries[k], k) if k < len(sim.entries) else NULL
             air.inject(f"RP --- {CTL} {p[-6]} --:------ 0418 022 {body}", delay=0.03)
             answered[0] += 1
